@@ -74,7 +74,7 @@ def parseSet (h : ReqHeader) (k : SetKind) (quiet : Bool) (inp : Bytes) : PRes :
   | none => failWith k.reqType .eof [] (8 + h.keyLen)
   | some (key, inp3) =>
     -- realLength := TotalBodyLength - uint32(ExtraLength) - uint32(KeyLength)   (mod 2^32)
-    let realLength := (h.total + 4294967296 + 4294967296 - h.extLen - h.keyLen) % 4294967296
+    let realLength := (8589934592 + h.total - h.extLen - h.keyLen) % 4294967296
     match readN realLength inp3 with
     | none => failWith k.reqType .eof [] (8 + h.keyLen + realLength)
     | some (data, inp4) =>
@@ -88,7 +88,7 @@ def parsePend (h : ReqHeader) (k : SetKind) (quiet : Bool) (inp : Bytes) : PRes 
   match readN h.keyLen inp with
   | none => failWith k.reqType .eof [] h.keyLen
   | some (key, inp1) =>
-    let realLength := (h.total + 4294967296 - h.keyLen) % 4294967296
+    let realLength := (4294967296 + h.total - h.keyLen) % 4294967296
     match readN realLength inp1 with
     | none => failWith k.reqType .eof [] (h.keyLen + realLength)
     | some (data, inp2) =>
@@ -133,12 +133,8 @@ def parseExpKey (h : ReqHeader) (rt : ReqType) (mk : Nat → Bytes → Cmd) (inp
     | some (key, rest) => { cmd := some (mk (Bytes.rd32 ex) key), rt := rt, rest := rest, alloc := 4 + h.keyLen }
 
 open Gen in
-/-- `BinaryParser.Parse` -/
-def binParse (inp : Bytes) : PRes :=
-  match readRequestHeader inp with
-  | .eof => failWith .unknown .eof [] 0
-  | .badMagic => failWith .unknown .badMagic (inp.drop binprot_ReqHeaderLen) 0
-  | .ok h rest =>
+/-- The `switch reqHeader.Opcode` of `BinaryParser.Parse`. -/
+def dispatch (h : ReqHeader) (rest : Bytes) : PRes :=
     let op := h.opcode
     if op = binprot_OpcodeSet then parseSet h .set false rest
     else if op = binprot_OpcodeSetQ then parseSet h .set true rest
@@ -174,5 +170,12 @@ def binParse (inp : Bytes) : PRes :=
     else if op = binprot_OpcodeVersion then { cmd := some (.version h.opq), rt := .version, rest := rest }
     else if op = binprot_OpcodeStat then { cmd := some (.stat h.opq), rt := .stat, rest := rest }
     else failWith .unknown (.app .unknownCmd) rest 0
+
+/-- `BinaryParser.Parse` -/
+def binParse (inp : Bytes) : PRes :=
+  match readRequestHeader inp with
+  | .eof => failWith .unknown .eof [] 0
+  | .badMagic => failWith .unknown .badMagic (inp.drop Gen.binprot_ReqHeaderLen) 0
+  | .ok h rest => dispatch h rest
 
 end Rend.Wire
